@@ -224,6 +224,9 @@ def flag_case(ctx, overflow=False):
 
 def check_flag(ctx, c, big=False):
     """returns (failure description or None, tags, nonfinite seen)"""
+    if ctx.rng.random() < 0.35:
+        # implementation against itself: any valid form of the data will do, also genuinely single / half precision
+        c = dict(c, form=ctx.rng.choice(['float32!', 'float32!', 'float16!', 'fortran', 'strided', 'readonly']))
     try:
         est = st.fit_case(c)
     except Exception:
@@ -258,7 +261,7 @@ def check_flag(ctx, c, big=False):
     for (n1, A), (n2, B) in zip(a, b):
         fin = np.all(np.isfinite(A)) and np.all(np.isfinite(B))
         nonfinite = nonfinite or not fin
-        if A.shape != B.shape or not np.array_equal(A, B, equal_nan=True):
+        if A.shape != B.shape or np.asarray(A).dtype != np.asarray(B).dtype or not np.array_equal(A, B, equal_nan=True):
             return (f'{n1}: results differ between skip_validation=False and True',
                     {'nonfinite': not fin, 'computation': n1}, nonfinite)
     return None, None, nonfinite
